@@ -63,15 +63,20 @@ type present struct {
 }
 
 func presentOn(w *srv.World, port int, key *world.Key, seed uint64, n int) present {
+	p, _ := presentRaw(w, port, world.EncodeStream(key, seed, world.Addr(srv.TargetTCP), []byte("hello")), n)
+	return p
+}
+
+// presentRaw sends wire as a client stream and also returns what the server sent back.
+func presentRaw(w *srv.World, port int, wire []byte, n int) (present, []byte) {
 	from := fmt.Sprintf("203.0.113.%d:0", 10+n)
 	c, err := vnet.EnvDial(world.TCPAddr(from), fmt.Sprintf("127.0.0.1:%d", port))
 	if err != nil {
-		return present{refused: true}
+		return present{refused: true}, nil
 	}
 	cl := &world.Client{C: c, EOFAt: -1, RSTAt: -1}
 	before := dials()
 	nrec := len(w.M.TCP)
-	wire := world.EncodeStream(key, seed, world.Addr(srv.TargetTCP), []byte("hello"))
 	rd := vrt.Spawn("reader", func() { cl.ReadAll() })
 	cl.Send(wire, 0)
 	vrt.Sleep(time.Second)
@@ -85,7 +90,86 @@ func presentOn(w *srv.World, port int, key *world.Key, seed uint64, n int) prese
 			p.status, p.authed, p.probes = r.Status(), len(r.Auth) > 0, len(r.Probes)
 		}
 	}
-	return p
+	return p, cl.Got
+}
+
+// ---- C08 on the whole server: reflection across listeners, formats and reloads ----
+
+type reflCase struct {
+	Cipher int    `json:"cipher"`
+	Shape  string `json:"shape"` // mixed: one key on a services listener and on a legacy port | reload-to-legacy | reload-to-services
+}
+
+func reflScenario(rc reflCase) *engine.Scenario {
+	var findings []*engine.Finding
+	obs := ""
+	sc := &engine.Scenario{Name: "srv-reflection", Opt: vrt.Options{Horizon: 24 * time.Hour}}
+	sc.Body = func() {
+		findings, obs = nil, ""
+		add := func(sig, msg string) { findings = append(findings, &engine.Finding{Sig: sig, Msg: msg}) }
+		k := srv.Key{ID: "refl", Cipher: world.Ciphers[rc.Cipher], Secret: "r3flect"}
+		other := srv.Key{ID: "other", Cipher: world.Ciphers[(rc.Cipher+1)%4], Secret: "0ther"}
+		services := srv.Cfg{Services: []srv.Svc{{Listeners: []srv.Ln{{Type: "tcp", Addr: "127.0.0.1:9000"}}, Keys: []srv.Key{other, k}}}}
+		legacy := srv.Cfg{Legacy: []srv.Legacy{{Key: k, Port: 9005}, {Key: other, Port: 9005}}}
+		mixed := srv.Cfg{Services: services.Services, Legacy: legacy.Legacy}
+		boot, recordOn, reflectOn := mixed, []int{9000, 9005}, []int{9000, 9005}
+		var reloadTo *srv.Cfg
+		switch rc.Shape {
+		case "reload-to-legacy":
+			boot, recordOn, reflectOn, reloadTo = services, []int{9000}, []int{9005}, &legacy
+		case "reload-to-services":
+			boot, recordOn, reflectOn, reloadTo = legacy, []int{9005}, []int{9000}, &services
+		}
+		w := srv.NewWorld()
+		if err := w.Boot(boot, 100); err != nil {
+			add("valid-config-rejected", err.Error())
+			return
+		}
+		key := world.MakeKey(k.ID, k.Cipher, k.Secret)
+		var recs [][]byte
+		for i, port := range recordOn {
+			p, out := presentRaw(w, port, world.EncodeStream(key, uint64(500+i), world.Addr(srv.TargetTCP), []byte("hello")), i)
+			if p.status != "OK" || len(out) < 50 {
+				add("connection-failed", fmt.Sprintf("recording connection on port %d: status %s, %d bytes from the server", port, p.status, len(out)))
+				return
+			}
+			recs = append(recs, out)
+		}
+		if reloadTo != nil && w.Reload(*reloadTo) {
+			add("valid-reload-failed", "the reload failed")
+			return
+		}
+		n := 10
+		for ri, rec := range recs {
+			for _, port := range reflectOn {
+				n++
+				p, out := presentRaw(w, port, rec, n)
+				obs += fmt.Sprint(p.status, len(out), p.dials, ";")
+				if p.status != "ERR_REPLAY_SERVER" || len(out) != 0 || p.dials != 0 || p.authed {
+					add("reflection-status{"+p.status+"}", fmt.Sprintf("what the server sent on port %d under key %s/%s, presented as a new connection on port %d (%s): status %s, %d bytes written back, %d dials, authenticated=%v; want ERR_REPLAY_SERVER and nothing else", recordOn[ri], k.Cipher, k.ID, port, rc.Shape, p.status, len(out), p.dials, p.authed))
+				}
+			}
+		}
+		if err := w.Shutdown(); err != nil {
+			add("stop-error", err.Error())
+		}
+	}
+	sc.Check = func(x *vrt.Exec) (string, bool, []*engine.Finding) {
+		fs := hk.Generic(x, hk.Opts{})
+		fs = append(fs, findings...)
+		return obs, true, fs
+	}
+	return sc
+}
+
+func reflCases() []reflCase {
+	var out []reflCase
+	for c := 0; c < 3; c++ { // (aes-128-gcm's 16-byte salt cannot carry the mark)
+		for _, sh := range []string{"mixed", "reload-to-legacy", "reload-to-services"} {
+			out = append(out, reflCase{c, sh})
+		}
+	}
+	return out
 }
 
 func dials() int {
@@ -194,6 +278,21 @@ func cases() []caseT {
 }
 
 func init() {
+	hk.Register("C08main", func(ctx *engine.Ctx) {
+		for i, rc := range reflCases() {
+			if ctx.Mine(int64(i)) {
+				ctx.RunCase("srv-reflection", "E", reflScenario(rc), rc, nil)
+			}
+		}
+	})
+	hk.Replayers["C08main"] = func(ctx *engine.Ctx, rp engine.Replay) []*engine.Finding {
+		var rc reflCase
+		if err := json.Unmarshal(rp.Input, &rc); err != nil {
+			return []*engine.Finding{{Sig: "BROKEN:bad-input", Msg: err.Error()}}
+		}
+		rp.Choices = nil
+		return engine.ReplayCase("srv-reflection", reflScenario(rc), rp)
+	}
 	hk.Register("C07main", func(ctx *engine.Ctx) {
 		for i, c := range cases() {
 			if ctx.Mine(int64(i)) {
